@@ -125,6 +125,13 @@ def _env_class(trim: str, suppress: bool, shorthand: bool, limits: tuple, shopif
     return cls
 
 
+# A loop-iteration limit for renders whose record sets none: the checks that compare a render with another render of
+# the same library (C10 immutability, C12 round trips) or record its events (C07) use it so that a range of a million
+# items in the type-confused data ends in LoopIterationLimitError instead of taking minutes.  C02 (time bounds) and the
+# checks that compare with the model leave it off.
+LOOP_CAP: int | None = None
+
+
 def make_env(cfg: dict, *, loader=None, env_globals=None):
     from liquid2 import FalsyStrictUndefined, StrictUndefined, Undefined, WhitespaceControl
 
@@ -132,6 +139,8 @@ def make_env(cfg: dict, *, loader=None, env_globals=None):
     und = {"default": Undefined, "strict": StrictUndefined, "falsy": FalsyStrictUndefined}
     lim = cfg.get("limits") or {}
     limits = tuple(None if lim.get(k) in (None, -1) else lim.get(k) for k in ("out", "loop", "depth", "ns"))
+    if LOOP_CAP is not None and limits[1] is None:
+        limits = (limits[0], LOOP_CAP, limits[2], limits[3])
     cls = _env_class(cfg.get("trim", "+"), bool(cfg.get("suppress", True)), bool(cfg.get("shorthand", False)), limits,
                      bool(cfg.get("shopify", False)))
     return cls(loader=loader, globals=env_globals or None, auto_escape=bool(cfg.get("autoescape", False)),
